@@ -34,6 +34,7 @@ type c03Desc struct {
 	Order  []string `json:"order"`
 	Dirs   int      `json:"dirs"`
 	Odd    bool     `json:"odd_names"`
+	ErrReport  string `json:"e0_reports_error_instead_of_next,omitempty"` // "init" | "exit": e0 reports an error where it would ask for next, and stays alive
 	HoldLaunch bool `json:"hold_launch,omitempty"` // the launch loop is paused after the first extension was started: it registers while the others do not exist yet
 	Gap    int      `json:"gap_ms_after_rt_next,omitempty"` // let the init sequence run on after the runtime's first next before the next step is issued
 }
@@ -135,6 +136,9 @@ func genC03(tier string, seed int64) []Case {
 		if d.HoldLaunch {
 			id += "/hold-launch"
 		}
+		if d.ErrReport != "" {
+			id += "/e0-" + d.ErrReport + "error"
+		}
 		if seen[id] {
 			return
 		}
@@ -174,6 +178,11 @@ func genC03(tier string, seed int64) []Case {
 			if cf.ne >= 2 && d.Order[0] == "e0.register" && oi%4 == 0 {
 				h := d
 				h.Odd, h.HoldLaunch = false, true
+				add(h)
+			}
+			if cf.ne >= 1 && oi%6 == 1 {
+				h := d
+				h.ErrReport = []string{"init", "exit"}[(oi/6)%2]
 				add(h)
 			}
 		}
@@ -384,6 +393,15 @@ func runC03(c *Ctx, d c03Desc) {
 				r := pt.Register(extNames[e], subsOf(d.Ext[e]), "")
 				regOK[party] = r.Status == 200
 				c.Check(r.Status == 200, "register_accepted", fmt.Sprintf("C03/register-refused/%d/%s", r.Status, r.Etype), "registration of a launched external extension was refused", stepName)
+			} else if d.ErrReport != "" && e == 0 {
+				// instead of asking for next the extension reports an error - and stays alive: it has NOT arrived
+				var r *vh.Resp
+				if d.ErrReport == "init" {
+					r = pt.ExtInitError(pt.ID(), "Extension.C03Init")
+				} else {
+					r = pt.ExtExitError(pt.ID(), "Extension.C03Exit")
+				}
+				c.Check(r.Status == 202, "error_report_accepted", fmt.Sprintf("C03/error-report-refused/%d", r.Status), "error report of a registered extension before its first next was refused", stepName)
 			} else {
 				a := vh.Go(func() *vh.Resp { return pt.ExtNext() })
 				pending[party] = a
@@ -445,6 +463,31 @@ func runC03(c *Ctx, d c03Desc) {
 		}
 		sort.Strings(es)
 		c.State(sn + " ext=" + strings.Join(es, ","))
+	}
+	if d.ErrReport != "" {
+		// e0 never asked for next (it reported an error and is still running): nobody may be served
+		time.Sleep(30 * time.Millisecond)
+		served := ""
+		for k, a := range pending {
+			if a.Done() && a.R != nil && a.R.Status == 200 {
+				served = k
+			}
+		}
+		c.Check(served == "", "no_delivery_before_all_arrived", "C03/early-delivery/after-error-report", fmt.Sprintf("%s was served although extension e0 (registered, reported an %s error, still running) never asked for next", served, d.ErrReport), d.Order)
+		c.Check(inv == nil || !inv.Done() || inv.Err != nil, "no_delivery_before_all_arrived", "C03/early-completion/after-error-report", "the first invocation completed successfully although an accepted extension never asked for next", nil)
+		// tidy up: the extension's process goes away, the initialisation fails
+		if p := w.E.WaitExt(extNames[0], 1, 0); p != nil {
+			p.RequestExit(vh.Exit{Code: 1})
+		}
+		if inv != nil {
+			inv.Wait(8 * time.Second)
+		}
+		c.SetInterleaving(strings.Join(d.Order, ">") + "/err-" + d.ErrReport)
+		c.SetTrace(fmt.Sprintf("e%v i%v err-%s ", d.Ext, d.Int, d.ErrReport)+strings.Join(d.Order, ">"), true)
+		if c.WantSample || c.Violated() {
+			c.SetSample(sampleLog(w, 100))
+		}
+		return
 	}
 	// every party has arrived and the invocation was issued: deliveries must follow
 	evs := w.E.Log.Snapshot()
